@@ -113,7 +113,9 @@ func (tree *trie) Get(key []byte) (value uint32, ok bool) {
 		}
 	}
 
-	if tree.labelVec.GetLabel(pos) == labelTerminator && !tree.hasChildVec.IsSet(pos) {
+	// NOTE: 0xFF is a terminator only if it is not the single label of the node(same check as iterator),
+	// else it is the real label 0xFF of a longer key.
+	if tree.labelVec.GetLabel(pos) == labelTerminator && !tree.hasChildVec.IsSet(pos) && !tree.isEndOfNode(pos) {
 		if ok = tree.suffixVec.CheckSuffix(key, depth, pos); ok {
 			valPos := tree.valuePos(pos)
 			value = tree.values.Get(valPos)
